@@ -1,13 +1,16 @@
 import json, os, re, subprocess
 
 SPEC = {
-    "lean_modules": ["SemaModel.C06.Props", "SemaModel.C06.Tie"],
+    "lean_modules": ["SemaModel.C06.Props", "SemaModel.C06.Tie", "SemaModel.C06.Formula"],
     "lean_dirs": ["SemaModel/C06"],
     "harness": "c06",
     "harness_args": {"quick": ["-n", 200, "-q", 25], "thorough": ["-n", 2500, "-q", 30]},
     "level": "proof",
-    "tie": "T1: utils/compare.go AccessNestedProperty and SortSearchResults (with its comparison closure; CompareAny and slices.SortFunc stay parameters) are translated to SemaModel/Generated/Compare.lean on every run; C06_tie_access / C06_tie_sortCmp / C06_tie_sort prove that the model's access / sortCmp compute the same for all documents, paths and sort options; the offset/limit statements at the end of Shard.SearchPoints are translated as a fragment with wrapping int arithmetic (Generated/Paging.lean) and C06_tie_page proves they are the model's pageRepaired. T3: the hand-written model (evalTree = indexManager.Search recursing through _and/_or, searchParallel incl. the stable sort of its single-sub-query shortcut, back-fill, select via msgpack Query + nested rebuild, CompareAny / SortSearchResults, the offset/limit slice in both variants) is run by the Lean driver on the same requests as a real shard (bbolt file and memory backend alternate). The answers of the query-tree leaves (ids, _hybridScore bit patterns) and the stored documents are taken from the real shard; the driver merges, back-fills, selects, sorts and pages and must print exactly the rows the shard returns (ids in order, _hybridScore bits, decoded data). CompareAny (pairs of random scalars, of values around 2^24 / 2^53 / 2^62 / 1.7e18 / the ends of int64 and uint64 in every width and signedness, of integers and float32 beside their float64 neighbours), reflect.Kind numbers and float32 addition are also compared on scalar op lines. The documented behaviour is evaluated directly on every real answer by a Go oracle (numbers of any two kinds compared exactly with math/big).",
+    "tie": "T1 (formula): the three leaf hybrid expressions (text: score * weight; flat: (-1 * weight) * dist; vamana: (-1 * dist) * weight; weight 1 when absent) are regenerated on every run into SemaModel/Generated/Hybrid.lean; C06_leaf_hybrid_formula and C06_merge_generated (C06_merge at the symbolic float type) are stated about them, the driver evaluates them against the real leaf answers (hyb lines, bit for bit). "
+           "T1: utils/compare.go AccessNestedProperty and SortSearchResults (with its comparison closure; CompareAny and slices.SortFunc stay parameters) are translated to SemaModel/Generated/Compare.lean on every run; C06_tie_access / C06_tie_sortCmp / C06_tie_sort prove that the model's access / sortCmp compute the same for all documents, paths and sort options; the offset/limit statements at the end of Shard.SearchPoints are translated as a fragment with wrapping int arithmetic (Generated/Paging.lean) and C06_tie_page proves they are the model's pageRepaired. T3: the hand-written model (evalTree = indexManager.Search recursing through _and/_or, searchParallel incl. the stable sort of its single-sub-query shortcut, back-fill, select via msgpack Query + nested rebuild, CompareAny / SortSearchResults, the offset/limit slice in both variants) is run by the Lean driver on the same requests as a real shard (bbolt file and memory backend alternate). The answers of the query-tree leaves (ids, _hybridScore bit patterns) and the stored documents are taken from the real shard; the driver merges, back-fills, selects, sorts and pages and must print exactly the rows the shard returns (ids in order, _hybridScore bits, decoded data). CompareAny (pairs of random scalars, of values around 2^24 / 2^53 / 2^62 / 1.7e18 / the ends of int64 and uint64 in every width and signedness, of integers and float32 beside their float64 neighbours), reflect.Kind numbers and float32 addition are also compared on scalar op lines. The documented behaviour is evaluated directly on every real answer by a Go oracle (numbers of any two kinds compared exactly with math/big).",
     "required_theorems": [
+        # formula theorems (Formula.lean; notes/T1ext.md section 8): the three leaf hybrid expressions generated from text.go, flat.go, vamana.go
+        "Sema.C06.C06_leaf_hybrid_formula", "Sema.C06.C06_merge_generated",
         "Sema.C06.C06_tie_access", "Sema.C06.C06_tie_sortCmp", "Sema.C06.C06_tie_sort", "Sema.C06.C06_tie_page", "Sema.C06.C06_tie_page_value",
         "Sema.C06.C06_merge", "Sema.C06.C06_merge_single", "Sema.C06.C06_rank_order", "Sema.C06.C06_rank_sorter_exists",
         "Sema.C06.C06_plain_order", "Sema.C06.C06_plain_negative_weight_witness", "Sema.C06.C06_backfill",
@@ -19,6 +22,7 @@ SPEC = {
         "Sema.C06.C06_tree", "Sema.C06.C06_answer", "Sema.C06.C06_search_page",
     ],
     "trusted_base": [
+        "leaf hybrid formula theorems fix the expression structure only (IEEE rounding not interpreted); the addition of the merge is the parameter `add` (driver: Lean Float32, fadd lines)",
         "msgpack: Decoder.Query(path) = lookup along map keys (first match), error when the path meets a non-container; decoding into `any` yields int8/16/32/64, uint8/16/32/64, float32/64 by encoded width; Decode into the partly built map sets every top-level key (array indices and `*` inside paths are outside the model)",
         "float semantics used by compareIntegerFloat: a float64 bit pattern denotes (-1)^s * m * 2^(e-1075) (scaled64 = that value times 2^1074, an integer), float32 widens exactly (scaled32), math.Trunc / T(t) discard the fraction exactly, cmp.Compare on floats is the order of the values with NaN first; all validated against Go on the `cmp` lines of every run, and tied to Base/Float.lean's bit-pattern order by the theorem C06_float_value_order",
         "roaring bitmaps are finite sets iterated in ascending order; FastAnd/FastOr of zero bitmaps are empty",
